@@ -202,7 +202,9 @@ class MacroExpansionInterpreter (simpleTAL.TemplateInterpreter):
 					self.file.write (html.escape (str (str (resultVal), 'ascii'), quote=False))
 					
 		if (self.outputTag and not args[1]):
-			self.file.write ('</' + args[0] + '>')
+			# Do NOT output end tag if a singleton with no content
+			if not (args[2] and self.tagContent is None):
+				self.file.write ('</' + args[0] + '>')
 		
 		if (self.movePCBack is not None):
 			self.programCounter = self.movePCBack
